@@ -357,16 +357,26 @@ def run(repo):
 
 def _le_to_rc_signs(lr):
     """index_pos = (support.ub == 0) -> dual_var[:, index_pos] <= 0 ; index_neg = (support.lb == 0)
-    -> dual_var[:, index_neg] >= 0"""
+    -> dual_var[:, index_neg] >= 0.  A mask name may be reused for the two bounds (at_zero = support.ub == 0; ..;
+    at_zero = support.lb == 0; ..): each read is resolved through the definitions that reach it."""
     from .common import single_defs, expand_locals
+    from rsx.webs import reaching_values
     ldefs = single_defs(lr.node)
+    reach = reaching_values(lr.node)
     got = {}
     for n in walk_no_nested(lr.node):
         if isinstance(n, ast.Compare) and len(n.ops) == 1 and isinstance(n.left, ast.Subscript) and \
                 isinstance(n.comparators[0], ast.Constant) and n.comparators[0].value == 0:
             # the column mask of the multiplier block, with hoisted masks / aliases expanded
-            idx = ntext(expand_locals(lr.node, n.left.slice, depth=3, defs=ldefs)).replace(' ', '')
-            for which in ('ub', 'lb'):
-                if 'support.%s==0' % which in idx:
-                    got.setdefault(which, set()).add(type(n.ops[0]).__name__)
+            sl = n.left.slice
+            texts = [ntext(expand_locals(lr.node, sl, depth=3, defs=ldefs)).replace(' ', '')]
+            for x in ast.walk(sl):
+                if isinstance(x, ast.Name) and x.id not in ldefs:
+                    vals = reach.get(id(x))
+                    if vals and all(v is not None for v in vals):
+                        texts += [ntext(expand_locals(lr.node, v, depth=3, defs=ldefs)).replace(' ', '') for v in vals]
+            for idx in texts:
+                for which in ('ub', 'lb'):
+                    if 'support.%s==0' % which in idx:
+                        got.setdefault(which, set()).add(type(n.ops[0]).__name__)
     return got.get('ub') == {'LtE'} and got.get('lb') == {'GtE'}
